@@ -77,6 +77,29 @@ def dovetail_line(v, a, ea, la, b, eb, lb, k):
                                                      _pos(ivb[1], lb), "%dM" % k if k else "*")
 
 
+# routes by which a name is assigned to a segment (all end in the same setter of the library)
+RENAME_ROUTES = ["attr", "attr", "set", "sid", "set_sid"]
+# name normalisations of a clean-up pass: each leaves most names of the generated graphs (capital letters, s1, s2,
+# 10, 11, x7, ctg3, Z1..Z6, copies made by multiply) as they are, i.e. most segments are assigned their own name
+NORMALISE = {
+    "same": lambda n: n,
+    "lower": lambda n: n.lower(),
+    "upper": lambda n: n.upper(),
+    "prefix": lambda n: n if n[:1].isalpha() else "n" + n,
+}
+
+
+def _set_name(s, value, route):
+    if route == "set":
+        s.set("name", value)
+    elif route == "sid":
+        s.sid = value
+    elif route == "set_sid":
+        s.set("sid", value)
+    else:
+        s.name = value
+
+
 def late_segments(rng, lines):
     """the same document with some S lines arriving AFTER lines that mention them (legal in both versions: gfapy
     keeps a placeholder segment until the S line arrives): either every line at a random place, or a random
@@ -107,6 +130,9 @@ def gen_case(rng, tier, i):
 
     def on():
         return rng.choice(["add_line", "connect"])
+
+    def rename_route():
+        return rng.choice(RENAME_ROUTES)
     if rng.random() < 0.7:
         for j in range(rng.randint(1, 5)):
             if j == 0 or rng.random() < 0.5:
@@ -164,11 +190,24 @@ def gen_case(rng, tier, i):
                     hist.append(["op", "remove_dead_ends", rng.choice([5, 8, 12, 1000])])
                 else:
                     hist.append(["op", "merge_linear_paths"])
-            elif alive and fresh:
-                old = rng.choice(sorted(alive))
-                new = fresh.pop(0)
-                alive[new] = alive.pop(old)
-                hist.append(["rename", old, new])
+            elif alive:
+                k = rng.random()
+                if k < 0.25:
+                    # a segment is assigned the name which it already has (an identity entry of a renaming table)
+                    old = rng.choice(sorted(alive))
+                    hist.append(["rename", old, old, rename_route()])
+                elif k < 0.4:
+                    # a normalisation pass over all segment names: most (or all) names are normal already
+                    how = rng.choice(sorted(NORMALISE))
+                    f = NORMALISE[how]
+                    if len(set(f(n) for n in alive)) == len(alive):
+                        alive = {f(n): ln for n, ln in alive.items()}
+                        hist.append(["normalise", how, rename_route()])
+                elif fresh:
+                    old = rng.choice(sorted(alive))
+                    new = fresh.pop(0)
+                    alive[new] = alive.pop(old)
+                    hist.append(["rename", old, new, rename_route()])
     c["history"] = hist
     c["minlen"] = rng.choice([0, 5, 8, 10, 12, 15, 20, 30, 50, 1000])
     return c
@@ -251,14 +290,9 @@ def _apply(gfapy, g, case, h):
         if len(h) > 2 and h[2] == "connect":
             return lib.outcome(lambda: gfapy.Line(h[1], version=case["version"], vlevel=case.get("vlevel", 1)).connect(g))
         return lib.outcome(g.add_line, h[1])
-    if kind == "rename":
-        s = g.segment(h[1])
-        if s is None or g.line(h[2]) is not None:
-            return None
-
-        def ren():
-            s.name = h[2]
-        return lib.outcome(ren)
+    if kind in ("rename", "normalise"):
+        r = _rename(g, h)
+        return None if r is None else r[0]
     if kind == "op":
         if h[1] == "multiply":
             if g.segment(h[2]) is None:
@@ -270,6 +304,86 @@ def _apply(gfapy, g, case, h):
             return lib.outcome(g.remove_dead_ends, h[2])
         return lib.outcome(getattr(g, h[1]))
     return None
+
+
+def _rename(g, h):
+    """a rename / normalise step -> None if it does not apply, else (lib.outcome(...), [(segment, old, new)] of the
+    assignments which were made, in order)"""
+    if h[0] == "rename":
+        route = h[3] if len(h) > 3 else "attr"
+        s = g.segment(h[1])
+        if s is None or (h[2] != h[1] and g.line(h[2]) is not None):
+            return None
+        todo = [(s, h[1], h[2])]
+    else:
+        route = h[2]
+        f = NORMALISE[h[1]]
+        segs = list(g.segments)
+        old = [str(s.name) for s in segs]
+        new = [f(n) for n in old]
+        if not segs or len(set(new)) != len(new) or any(b != a and g.line(b) is not None for a, b in zip(old, new)):
+            return None
+        todo = list(zip(segs, old, new))
+    made = []
+
+    def run():
+        for s, a, b in todo:
+            _set_name(s, b, route)
+            made.append((s, a, b))
+    return lib.outcome(run), made
+
+
+def _snapshot(g, case):
+    """the parsed text of this moment, or None if it cannot serve as the reference of a comparison"""
+    d = G.parse(str(g), case["version"])
+    if not G.closed(d) or any(e["kind"] is None for e in d.edges) or d.dup_names or not all(e["valid"] for e in d.edges):
+        return None
+    return d
+
+
+def _rename_failures(g, d0, made, h):
+    """assigning names does not add or remove a record or a segment end: the segments, the classes and the
+    counts after the step are those of the text BEFORE it (d0), with the new names"""
+    F = []
+    m = dict((a, b) for _, a, b in made)
+    what = "after %r = %s" % (h, ", ".join("%s->%s" % (a, b) for _, a, b in made[:12]))
+    want_names = sorted(m.get(n, n) for n in d0.segs)
+    r = lib.outcome(lambda: sorted(str(n) for n in g.segment_names))
+    if r != ("ok", want_names):
+        F.append("rename-loses-segment: %s the segments of the Gfa are %r, expected %r" % (what, r[1], want_names))
+    lost = []
+    for s, a, b in made:
+        r = lib.outcome(g.segment, b)
+        if r[0] != "ok" or r[1] is not s:
+            lost.append(b)
+    if lost:
+        F.append("rename-loses-segment: %s Gfa.segment(name) is not the segment which was given the name, for %r" % (what, lost))
+    want = set(frozenset(m.get(n, n) for n in c) for c in G.components(d0))
+    r = lib.outcome(lambda: [names_of(c) for c in g.connected_components()])
+    if r[0] != "ok":
+        F.append("components-raises-after-rename: %s %s %s" % (what, r[0], r[1]))
+    elif set(frozenset(c) for c in r[1]) != want or sum(len(c) for c in r[1]) != len(d0.segs):
+        F.append("components-wrong-after-rename: %s expected %r got %r" % (what, sorted(map(sorted, want)), sorted(map(sorted, r[1]))))
+    cls = {}
+    for c in want:
+        for n in c:
+            cls[n] = c
+    for s, a, b in made[:6]:
+        for arg, how in ((b, "name"), (s, "instance")):
+            r = lib.outcome(lambda: names_of(g.segment_connected_component(arg)))
+            if r[0] != "ok":
+                F.append("segment-component-raises-after-rename: %s %s by %s: %s %s" % (what, b, how, r[0], r[1]))
+            elif b in cls and (set(r[1]) != set(cls[b]) or len(r[1]) != len(set(r[1]))):
+                F.append("segment-component-wrong-after-rename: %s %s by %s: expected %r got %r" % (what, b, how, sorted(cls[b]), sorted(r[1])))
+    deg = G.degrees(d0)
+    for attr, val in (("n_dovetails", len(d0.dovetails)), ("n_containments", len(d0.containments)),
+                      ("n_internals", len(d0.internals)), ("n_dead_ends", sum(1 for v in deg.values() if v == 0))):
+        r = lib.outcome(lambda: getattr(g, attr))
+        if r[0] != "ok":
+            F.append("%s-raises-after-rename: %s %s %s" % (attr, what, r[0], r[1]))
+        elif r[1] != val:
+            F.append("%s-wrong-after-rename: %s library %r, records and segment ends of the text before the step %d" % (attr, what, r[1], val))
+    return F
 
 
 def _queries(g, case, full, pick=0):
@@ -360,7 +474,18 @@ def oracle(case):
             if d is None:
                 return F
             continue
-        r = _apply(gfapy, g, case, h)
+        if h[0] in ("rename", "normalise"):
+            d0 = _snapshot(g, case)
+            r = _rename(g, h)
+            if r is None:
+                continue
+            r, made = r
+            if r[0] == "ok" and d0 is not None:
+                F = _rename_failures(g, d0, made, h)
+                if F:
+                    return ["%s (steps before: %r)" % (f, done) for f in F]
+        else:
+            r = _apply(gfapy, g, case, h)
         if r is None:
             continue
         done.append(h)
